@@ -419,9 +419,13 @@ HTPsync(filerec_t *file_rec /* IN:  File record to store info in */
     int        ret_value = SUCCEED;
 
     HEclear();
-    block = file_rec->ddhead;
-    if (block == NULL) /* check for DD list */
+    if (file_rec->ddhead == NULL) /* check for DD list */
         HGOTO_ERROR(DFE_BADDDLIST, FAIL);
+
+    /* Flush from the last block back to the first one, so that a block is on
+       disk before the block that links to it is updated: if the process dies in
+       between, the old chain of DD blocks is still intact. */
+    block = file_rec->ddlast;
 
     while (block != NULL) {         /* check all the blocks for flushing */
         if (block->dirty == TRUE) { /* flush this block? */
@@ -457,7 +461,7 @@ HTPsync(filerec_t *file_rec /* IN:  File record to store info in */
 
             block->dirty = FALSE; /* block has been flushed */
         }                         /* end if */
-        block = block->next;      /* advance to next block for file */
+        block = block->prev;      /* move to the previous block of the file */
     }                             /* end while */
 
 done:
